@@ -4,9 +4,9 @@ import os, subprocess, json, struct, concurrent.futures, glob, shutil
 import common
 from common import Machinery, mk_engine, viol
 
-CFGS = ["std", "std-nocheck", "libm", "libm-nocheck", "micromath", "micromath-nocheck"]
+CFGS = ["std", "std-nocheck", "libm", "libm-nocheck", "micromath", "micromath-nocheck", "std-rel", "std-rel-nocheck"]
 BACKEND = {"std": "std", "std-nocheck": "std", "libm": "libm", "libm-nocheck": "libm", "micromath": "micromath",
-           "micromath-nocheck": "micromath"}
+           "micromath-nocheck": "micromath", "std-rel": "std", "std-rel-nocheck": "std"}
 ORACLES_QUICK = ["C12", "C14", "C02"]
 ORACLES_THOROUGH = ["C01", "C02", "C04", "C05", "C06", "C08", "C10", "C11", "C12", "C13", "C14", "C15", "C18", "C20"]
 
@@ -28,7 +28,7 @@ def run(pid, tier):
     if os.path.exists(tdir):
         shutil.rmtree(tdir)
     os.makedirs(tdir)
-    with concurrent.futures.ThreadPoolExecutor(max_workers=6) as ex:
+    with concurrent.futures.ThreadPoolExecutor(max_workers=8) as ex:
         bins = dict(zip(CFGS, ex.map(lambda c: common.build_props(c)[0], CFGS)))
     engines = []
 
@@ -42,13 +42,13 @@ def run(pid, tier):
             engines.extend(res["engines"])
     # ---- compare sections across configurations
     cmp_eng = mk_engine("c19-cross-configuration",
-                        "for every trace section the six builds {std, alloc+libm, alloc+micromath} x {dim_check_release, no "
-                        "checking} must produce identical canonical traces (f32 compared as values, identical timestamps and "
+                        "for every trace section the eight builds {std, alloc+libm, alloc+micromath} x {dim_check_release, no "
+                        "checking} plus the std pair again as a true release build (debug assertions and overflow checks compiled out) must produce identical canonical traces (f32 compared as values, identical timestamps and "
                         "outcome categories); sections that depend on the power function are compared exactly between the "
                         "checked and unchecked build of the same back end, and across back ends structurally plus numerically "
                         "within 1e-5 of the values' scale (libm vs std); micromath's coarse powf is compared structurally only and judged numerically by the build's own C12 oracle; non-trivial = pair of "
                         "configurations that differ in back end or checking",
-                        "sections x 15 configuration pairs")
+                        "sections x 7 comparisons against the std build")
     sections = sorted(set(os.path.basename(p).split(".", 1)[1][:-6] for p in glob.glob(os.path.join(tdir, "std.*.trace"))))
     if not sections:
         raise Machinery("no trace sections were written")
